@@ -23,11 +23,21 @@ int main(int argc, char** argv) {
   if (argc < 3) return 2;
   int k = atoi(argv[1]);
   vh_parse(argv[2]);
+  /* the ring must not depend on fresh (zeroed) heap: hand the allocator a dirty block of
+   * exactly the ring's size first */
+  {
+    size_t sz = sizeof(lockfree_ring_buffer_t) + ((size_t)1 << k) * sizeof(void*);
+    void* dirty = malloc(sz);
+    memset(dirty, 0xAB, sz);
+    __asm__ __volatile__("" : : "r"(dirty) : "memory"); /* keep the stores */
+    free(dirty);
+  }
   rb = lockfree_ring_buffer_create(k);
   vr_reg(&rb->high, 8, "high");
   vr_reg(&rb->low, 8, "low");
   for (uint32_t i = 0; i < rb->size; i++) vr_reg(&rb->buffer[i], 8, "buf%u", i);
-  vr_note("init ring %u", rb->size);
+  /* the model is told the REQUESTED capacity 2^k, not what the implementation made of it */
+  vr_note("init ring %u", 1u << k);
   vh_run(do_op);
   /* drain single-threaded so the monitor can tell a lost item from a queued one */
   for (;;) {
